@@ -53,8 +53,8 @@ Theorem C20_pinned_tree_refuted :
   parse_handle false 7 t_status (id7 ++ [x00; x00; x00; x00]%byte) = Ok (CVal VOk) /\
   (forall n acc, read_chunk n false 7 (repeat empty_data n) 8 acc = Err EOutOfFuel).
 Proof.
-  repeat split; [exact unsafe_status_panics | exact unsafe_handle_panics | exact unsafe_name_panics
-                | exact unsafe_data_panics | exact unsafe_ok_status_is_nil_value | exact unsafe_read_chunk_spins].
+  exact (conj unsafe_status_panics (conj unsafe_handle_panics (conj unsafe_name_panics
+          (conj unsafe_data_panics (conj unsafe_ok_status_is_nil_value unsafe_read_chunk_spins))))).
 Qed.
 Print Assumptions C20_pinned_tree_refuted.
 
